@@ -83,10 +83,13 @@ package internal
 //@ func WriteDelimitedMessage
 //@   trusted
 //@   modifies wrOut, wireFmt
+// rdMsgN[0]: number of messages read successfully through ReadDelimitedMessage (ghost)
+//@ ghost rdMsgN: int -> int
 //@ func ReadDelimitedMessage
 //@   trusted
 //@   //# the runner reads the two compat response types; everything else unmarshalling creates is fresh
-//@   modifies rdPos, conformancev1.ClientCompatResponse.*, conformancev1.ServerCompatResponse.*
+//@   modifies rdPos, rdMsgN, conformancev1.ClientCompatResponse.*, conformancev1.ServerCompatResponse.*
+//@   ensures rdMsgN[0] == old(rdMsgN[0]) + (result == nil ? 1 : 0)
 
 // JSON variant: end of input is reported (io.EOF) exactly when the stream ended cleanly
 // between two values; a stream cut inside a value is an error that is not io.EOF; success
